@@ -379,6 +379,7 @@ def parseEv (s : String) : Option Ev :=
   | ["ua", id] => do pure (.inb (.unsuback (← id.toNat?)))
   | ["pg"] => some (.inb .pingresp)
   | ["fast2"] => some (.cancel 1000000000)
+  | ["fastrel"] => some (.cancel 1000000000)
   | ["fast"] => some (.cancel 1000000000)   -- harness hint (the next request is answered before its Write returns): a model no-op
   | ["in", q, id] => do pure (.inb (.publish (← q.toNat?) (← id.toNat?)))
   | ["rel", id] => do pure (.inb (.pubrel (← id.toNat?)))
